@@ -1,2 +1,375 @@
-// Package c14 will hold the check for property C14.
+// Package c14 decides C14: the REST API, the web UI JSON endpoints and the bundled Go client
+// report and change exactly the store's state.
+//
+// Every case is one history against a fresh WebEnv (real REST + web UI routes on an httptest
+// server, real StoreManager, real mem or file store, with or without Web.BasePath).  The history
+// mixes deliveries (StoreManager.Deliver or a real SMTP session) with API calls issued as raw
+// HTTP requests and through pkg/rest/client.  The oracle is M-mailbox (internal/model): every
+// response is compared with the model, and after every call the complete store is read back
+// through storage.Store and compared with the model.
 package c14
+
+import (
+	"fmt"
+	"net/http"
+	"sort"
+	"strings"
+	"time"
+
+	"github.com/inbucket/inbucket/v3/pkg/config"
+	"github.com/inbucket/inbucket/v3/pkg/rest/client"
+
+	"verifharness/internal/fw"
+	"verifharness/internal/model"
+	"verifharness/internal/sut"
+)
+
+// SlashKey is the stable finding key of defect D13: a mailbox name that contains '/' cannot be
+// addressed over HTTP because gorilla/mux matches the decoded path.
+const SlashKey = "C14:name-contains-slash"
+
+var (
+	backends  = []string{"mem", "file"}
+	basePaths = []string{"", "/prefix"}
+	namings   = []string{"local", "full", "domain"}
+)
+
+func setupName(backend, base string) string {
+	if base == "" {
+		base = "-"
+	}
+	return backend + base
+}
+
+func init() {
+	fw.Register(&fw.Prop{
+		ID:    "C14",
+		Level: "exploration",
+		Rule: "one history per case against a fresh httptest server carrying the real REST and web UI routes: 4 setups (mem|file x " +
+			"base path \"\"|/prefix) x naming {local,full,domain}, all 12 occur; 2-4 canonical mailbox names over the whole alphabet the " +
+			"naming function emits (weighted to % ? # & = / . ~ ' ! $ *, whole-name specials such as %, %41, %2f, latest, source; one " +
+			"name with '/' in about 1 history of 7), only names n with name(n)==n that RCPT accepts; 10-40 steps mixing deliveries " +
+			"(StoreManager.Deliver or a real SMTP session, 1-2 recipients, single-part ASCII text/plain) with list/show/source/PATCH seen/" +
+			"DELETE message/DELETE mailbox and web UI message/source/html, each as a raw HTTP request (url.PathEscape) or through every " +
+			"exported method of pkg/rest/client incl. the MessageHeader/Message convenience methods; ids existing (any position), removed, " +
+			"never-existed, 'latest', ids with URL-significant characters; 1 lookup in 6 uses a non-canonical spelling of the name " +
+			"(letter case, +ext, @domain). Oracle: M-mailbox; response vs model, then full store read-back vs model after every call. " +
+			"A history is non-trivial when >=1 API call was judged against >=1 stored message; distinct by (setup, naming, set of " +
+			"(interface, operation, id class, name class, outcome)).",
+		Assumptions: []string{
+			"the HTTP server is net/http's httptest server around web.Router built by the real SetupRoutes functions; TLS and the SPA/static routes are not part of the property",
+			"message ids, dates and the generated Return-Path/Received lines are outputs of the implementation: the model takes them from the store right after each delivery (freshness of the id, position, from/to/subject/seen/size=len(source) and the transmitted content are checked there), afterwards every interface must agree with the model",
+			"body text is compared modulo CRLF/LF and trailing newlines, only for single-part ASCII text/plain without URL-like or HTML-special characters",
+			"PATCH/DELETE with the id 'latest' is not specified by the property: either 404 without effect or 200 with the effect on the newest message is accepted (counted)",
+			"ids are outputs of the server and never contain '/', '%' or dot segments: never-existed ids with '/' are only sent in shapes that cannot alias another route; ids with '%' or '/' are not passed to the Go client (it does not escape ids); '.' and '..' are path syntax, not ids",
+			"PATCH bodies are always {\"seen\":true}",
+			"every failure of a request whose mailbox name contains '/' is filed under the single key " + SlashKey + " (known defect D13)",
+		},
+		MinObs: func(tier string) map[string]int64 {
+			m := map[string]int64{
+				"store_checks": 2000, "deliveries_direct": 300, "deliveries_smtp": 100,
+				"expect_404": 300, "expect_200": 1500, "client_calls": 500, "raw_calls": 800,
+				"noncanonical_lookups": 100, "names_with_url_chars": 200, "slash_name_histories": 10,
+				"id:existing-not-latest": 100, "id:removed": 50, "id:never": 50, "id:latest": 50, "id:urlchars": 50,
+				"panic_log_checks": 2000,
+			}
+			for _, b := range backends {
+				for _, p := range basePaths {
+					for _, n := range namings {
+						m["setup:"+setupName(b, p)+"/"+n] = 5
+					}
+				}
+			}
+			for _, op := range allOps {
+				m["op:"+op] = 20
+			}
+			for _, cm := range clientMethods {
+				m["client:"+cm] = 10
+			}
+			return m
+		},
+		Run: run,
+	})
+}
+
+var allOps = []string{"rest-list", "rest-show", "rest-source", "rest-seen", "rest-delete", "rest-purge",
+	"ui-message", "ui-source", "ui-html",
+	"client-list", "client-show", "client-source", "client-seen", "client-delete", "client-purge"}
+
+var clientMethods = []string{"ListMailbox", "GetMessage", "MarkSeen", "GetMessageSource", "DeleteMessage", "PurgeMailbox",
+	"MessageHeader.GetMessage", "MessageHeader.GetSource", "MessageHeader.Delete", "Message.GetSource", "Message.Delete"}
+
+func run(c *fw.Ctx) {
+	n := c.N(2000, 30000)
+	c.Cases("hist", n, func(i int, r *fw.Rand) { runHistory(c, i, r) })
+}
+
+// step is one entry of the replay trace of a history.
+type step struct {
+	Op     string `json:"op"`
+	Name   string `json:"name,omitempty"`
+	ID     string `json:"id,omitempty"`
+	Req    string `json:"req,omitempty"`
+	Status int    `json:"status,omitempty"`
+	Note   string `json:"note,omitempty"`
+}
+
+// extra is what the harness knows about a delivered message beyond model.Msg.
+type extra struct {
+	text    string // transmitted body
+	rawFrom string // From header as transmitted ("" = none)
+}
+
+type hist struct {
+	c       *fw.Ctx
+	r       *fw.Rand
+	we      *sut.WebEnv
+	m       *model.Store
+	setup   string
+	naming  string
+	names   []string
+	removed map[string][]string
+	extras  map[string]*extra
+	hc      *http.Client
+	cl      *client.Client
+	logLen  int
+	trace   []step
+	sig     map[string]bool
+	judged  int  // API calls judged against a non-empty model
+	failed  bool // the current step recorded a violation
+	abort   bool
+	curName string // spelling of the mailbox name used by the current step
+}
+
+func runHistory(c *fw.Ctx, idx int, r *fw.Rand) {
+	backend := backends[idx%2]
+	base := basePaths[(idx/2)%2]
+	naming := namings[(idx/4)%3]
+	conf := sut.DefaultConf()
+	conf.Web.BasePath = base
+	switch naming {
+	case "local":
+		conf.MailboxNaming = config.LocalNaming
+	case "full":
+		conf.MailboxNaming = config.FullNaming
+	case "domain":
+		conf.MailboxNaming = config.DomainNaming
+	}
+	if backend == "file" {
+		conf.Storage.Type = "file"
+		conf.Storage.Params = map[string]string{"path": c.TempDir("c14fs")}
+	}
+	we, err := sut.NewWebEnv(conf, backend)
+	if err != nil {
+		panic(err)
+	}
+	tr1 := &http.Transport{MaxIdleConnsPerHost: 2}
+	tr2 := &http.Transport{MaxIdleConnsPerHost: 2}
+	defer func() {
+		tr1.CloseIdleConnections()
+		tr2.CloseIdleConnections()
+		we.Close()
+	}()
+	cl, err := client.New(we.Base, client.WithTransport(tr2))
+	if err != nil {
+		panic(err)
+	}
+	h := &hist{c: c, r: r, we: we, m: model.New(0, 0), setup: setupName(backend, base), naming: naming,
+		removed: map[string][]string{}, extras: map[string]*extra{}, cl: cl, sig: map[string]bool{},
+		hc: &http.Client{Transport: tr1, Timeout: time.Duration(c.Slow) * 60 * time.Second,
+			CheckRedirect: func(*http.Request, []*http.Request) error { return http.ErrUseLastResponse }},
+	}
+	c.Count("setup:"+h.setup+"/"+naming, 1)
+	h.names = genNames(h)
+	hasSlash := false
+	for _, n := range h.names {
+		if strings.Contains(n, "/") {
+			hasSlash = true
+		}
+		if nameClass(n) != "plain" {
+			c.Count("names_with_url_chars", 1)
+		}
+	}
+	if hasSlash {
+		c.Count("slash_name_histories", 1)
+	}
+
+	steps := r.Range(10, 40)
+	for s := 0; s < steps && !h.abort; s++ {
+		h.step()
+	}
+	if h.judged > 0 {
+		keys := make([]string, 0, len(h.sig))
+		for k := range h.sig {
+			keys = append(keys, k)
+		}
+		sort.Strings(keys)
+		c.NonTrivial(h.setup + "|" + naming + "|" + strings.Join(keys, ","))
+	}
+	c.Sample(map[string]any{"setup": h.setup, "naming": naming, "names": h.names, "trace_head": headSteps(h.trace, 14)})
+}
+
+func headSteps(t []step, n int) []step {
+	if len(t) > n {
+		return t[:n]
+	}
+	return t
+}
+
+// violation files a refutation.  Any failure of a step whose mailbox spelling contains '/' goes
+// under SlashKey.
+func (h *hist) violation(key, what string) {
+	h.failed = true
+	if strings.Contains(h.curName, "/") {
+		key = SlashKey
+	}
+	h.c.Violation(key, fmt.Sprintf("[%s naming=%s mailbox=%q] %s", h.setup, h.naming, h.curName, what),
+		map[string]any{"setup": h.setup, "naming": h.naming, "base": h.we.Base, "names": h.names, "trace": tailSteps(h.trace, 60)})
+}
+
+func tailSteps(t []step, n int) []step {
+	if len(t) > n {
+		return t[len(t)-n:]
+	}
+	return t
+}
+
+func (h *hist) log(s step) {
+	if len(h.trace) < 400 {
+		h.trace = append(h.trace, s)
+	}
+}
+
+// step performs one delivery or one API call, then checks the server's error log and the store.
+func (h *hist) step() {
+	h.failed = false
+	h.curName = ""
+	pre := cloneModel(h.m)
+	empty := h.m.Count() == 0
+	if empty || h.r.Chance(22, 100) {
+		h.deliver()
+	} else {
+		h.apiCall()
+	}
+	h.checkErrLog()
+	if h.abort {
+		return
+	}
+	if !h.failed {
+		if d := h.storeDiff(h.m); d != "" {
+			h.violation("C14:"+h.lastOp()+":store-effect", "store differs from the model after the call: "+d)
+		}
+	}
+	if h.failed {
+		// Known defect D13 must not end every history that uses a '/' name: when the failed call
+		// left the store exactly as it was, the model is rolled back and the history goes on.
+		if strings.Contains(h.curName, "/") && h.storeDiff(pre) == "" {
+			h.m = pre
+			h.c.Count("slash_failures_rolled_back", 1)
+			return
+		}
+		h.abort = true
+	}
+}
+
+func (h *hist) lastOp() string {
+	if len(h.trace) == 0 {
+		return "none"
+	}
+	return h.trace[len(h.trace)-1].Op
+}
+
+// checkErrLog looks at what the HTTP server wrote to its ErrorLog during the step.
+func (h *hist) checkErrLog() {
+	h.c.Count("panic_log_checks", 1)
+	s := h.we.ErrLog.String()
+	if len(s) <= h.logLen {
+		return
+	}
+	added := s[h.logLen:]
+	h.logLen = len(s)
+	if strings.Contains(added, "http: panic serving") {
+		h.violation("C14:"+h.lastOp()+":handler-panic", "handler panicked: "+fw.Trunc(firstLines(added, 12), 900))
+		return
+	}
+	h.c.Count("errlog_other_lines", 1)
+	h.c.Note("server ErrorLog: " + fw.Trunc(added, 200))
+}
+
+func firstLines(s string, n int) string {
+	l := strings.Split(s, "\n")
+	if len(l) > n {
+		l = l[:n]
+	}
+	return strings.Join(l, " | ")
+}
+
+// storeDiff reads the whole store back and compares it with m; "" means equal.
+func (h *hist) storeDiff(m *model.Store) string {
+	h.c.Count("store_checks", 1)
+	snap, err := sut.Snapshot(h.we.Store, h.names, false)
+	if err != nil {
+		return "store unreadable: " + err.Error()
+	}
+	for n, l := range snap {
+		if len(l) > 0 && len(m.List(n)) == 0 {
+			return fmt.Sprintf("mailbox %q holds %d message(s), model has none", n, len(l))
+		}
+	}
+	for _, n := range m.Names() {
+		want, got := m.List(n), snap[n]
+		if len(want) != len(got) {
+			return fmt.Sprintf("mailbox %q holds %d message(s) %v, model %d %v", n, len(got), snapIDs(got), len(want), modelIDs(want))
+		}
+		for i, w := range want {
+			g := got[i]
+			if g.ID != w.ID {
+				return fmt.Sprintf("mailbox %q position %d: id %q, model %q", n, i, g.ID, w.ID)
+			}
+			if g.Seen != w.Seen {
+				return fmt.Sprintf("mailbox %q message %s: seen=%v, model %v", n, w.ID, g.Seen, w.Seen)
+			}
+			if g.Size != w.Size || g.Subject != w.Subject || !g.Date.Equal(w.Date) || g.Mailbox != n {
+				return fmt.Sprintf("mailbox %q message %s: metadata changed (size %d/%d subject %q/%q date %v/%v mailbox %q)",
+					n, w.ID, g.Size, w.Size, g.Subject, w.Subject, g.Date, w.Date, g.Mailbox)
+			}
+		}
+	}
+	return ""
+}
+
+func snapIDs(l []sut.MsgSnap) []string {
+	out := make([]string, len(l))
+	for i, m := range l {
+		out[i] = m.ID
+	}
+	return out
+}
+
+func modelIDs(l []*model.Msg) []string {
+	out := make([]string, len(l))
+	for i, m := range l {
+		out[i] = m.ID
+	}
+	return out
+}
+
+func cloneModel(s *model.Store) *model.Store {
+	c := model.New(s.Cap, s.Limit)
+	for n, l := range s.Boxes {
+		cl := make([]*model.Msg, len(l))
+		for i, m := range l {
+			mm := *m
+			cl[i] = &mm
+		}
+		c.Boxes[n] = cl
+	}
+	for n, u := range s.Used {
+		cu := make(map[string]bool, len(u))
+		for k, v := range u {
+			cu[k] = v
+		}
+		c.Used[n] = cu
+	}
+	return c
+}
